@@ -32,7 +32,8 @@ except ImportError:
     THEOREMS = []
 
 SPECS = [("ij,j->i", 2), ("ij,jk->ik", 2), ("i,i->", 2), ("ij,ij->i", 2), ("ijk,k->ij", 2), ("ij->ji", 1),
-         ("i,j->ij", 2), ("ii->i", 1), ("ij,j,i->", 3), ("ij,jk,k->i", 3), ("ij->", 1), ("ij,ij->ij", 2)]
+         ("i,j->ij", 2), ("ii->i", 1), ("ij,j,i->", 3), ("ij,jk,k->i", 3), ("ij->", 1), ("ij,ij->ij", 2),
+         ("ijk,ijk->ijk", 2), ("ijkl,l->ijk", 2), ("ijk,jk->i", 2), ("ijk,ij,k->ik", 3)]
 
 
 class XGen:
@@ -40,6 +41,9 @@ class XGen:
         self.rng = rng
         self.phs: dict[str, tuple] = {}
         self.n_einsum = 0
+        self.max_einsum = 3
+        self.memo: dict[tuple, list] = {}       # operands built so far, by shape: sub-expressions get SHARED
+        self.share = 0.0
 
     def leaf(self, shape):
         import pytato as pt
@@ -49,6 +53,17 @@ class XGen:
 
     def operand(self, shape, depth):
         """an array expression of exactly `shape`"""
+        import pytato as pt
+        r = self.rng
+        shape = tuple(shape)
+        if self.memo.get(shape) and r.random() < self.share:
+            return r.choice(self.memo[shape])
+        e = self._operand(shape, depth)
+        if tuple(e.shape) == shape:
+            self.memo.setdefault(shape, []).append(e)
+        return e
+
+    def _operand(self, shape, depth):
         import pytato as pt
         r = self.rng
         if depth <= 0 or r.random() < 0.25:
@@ -96,26 +111,30 @@ class XGen:
                 return a
             return a + self.operand(shape[-1:], depth - 1)     # broadcasting add: shapes differ
         if k == "einsum":
-            if self.n_einsum >= 3 or len(shape) != 1:
+            if self.n_einsum >= self.max_einsum or len(shape) != 1:
                 return a
             self.n_einsum += 1
             m = self.operand((shape[0], shape[0]), depth - 1)
             return m @ a
         return a
 
-    def einsum(self, depth):
+    def einsum(self, depth, spec=None, dims=None):
         import pytato as pt
         r = self.rng
-        spec, nops = r.choice(SPECS)
+        if spec is None:
+            spec, nops = r.choice(SPECS)
         ins, out = spec.split("->")
         letters = sorted(set(ins.replace(",", "")))
-        dims = {c: r.randint(1, 3) for c in letters}
+        if dims is None:
+            dims = {c: r.randint(1, 3) for c in letters}
         args = []
+        # some einsums broadcast heavily: several unit axes in ONE operand
+        p_unit = 0.6 if r.random() < 0.3 else 0.12
         for sp in ins.split(","):
             shp = [dims[c] for c in sp]
             # broadcast-unit axis (not on a repeated letter)
             for ax, ch in enumerate(sp):
-                if sp.count(ch) == 1 and dims[ch] > 1 and r.random() < 0.12:
+                if sp.count(ch) == 1 and dims[ch] > 1 and ins.count(ch) > 1 and r.random() < p_unit:
                     shp[ax] = 1
             args.append(self.operand(tuple(shp), depth))
         self.n_einsum += 1
@@ -123,6 +142,20 @@ class XGen:
 
     def top(self):
         r = self.rng
+        if r.random() < 0.3:
+            # several einsums of ONE index pattern and extent over shared operand sub-expressions
+            # (A @ (x1 + x2) + B @ (x1 + x2)): a rewrite must keep them apart
+            self.share = 0.5
+            self.max_einsum = 4
+            spec, _ = r.choice([sp for sp in SPECS if sp[1] >= 2])
+            letters = sorted(set(spec.split("->")[0].replace(",", "")))
+            dims = {c: r.randint(2, 3) for c in letters}
+            parts = [self.einsum(r.randint(1, 2), spec, dims) for _ in range(r.randint(2, 3))]
+            e = parts[0]
+            for q in parts[1:]:
+                e = e + q if r.random() < 0.6 else e - 2 * q
+            return e
+        self.share = r.choice([0.0, 0.0, 0.3])
         e = self.einsum(r.randint(1, 3))
         if self.n_einsum < 3 and r.random() < 0.35:
             e2 = self.einsum(r.randint(0, 2))
